@@ -113,6 +113,8 @@ def check(ctx):
         return
     pv = md.pv
     by_label = check_dispatch(ctx, md, HEADER_PARAMS, RESULT)
+    from rules import extractors as _ex
+    _ex.check_extractors(ctx.under("R-1", "extractors"), "R-1")
     # "a registered ... integer": the registries whose values decide what this decoder accepts carry the IANA integers
     from rules import c17 as _c17
     _c17.check_tables(ctx.under("R-4", "registry"), only={"iana::Algorithm", "iana::HeaderParameter", "iana::CoapContentFormat"})
